@@ -50,7 +50,7 @@ class Ctr:
     @staticmethod
     def gen_labels(rng):
         pool = [("tier", ["db", "web", ""]), ("com.example.role", ["dotted", "x"]), ("com_example_role", ["underscored"]), ("com-example-role", ["dashed"]),
-                ("env", ["prod", "dev"]), ("9lives", ["cat"]), ("app", ["shop", "blog"]), ("container", ["impostor"]), ("é", ["accent"]),
+                ("env", ["prod", "dev", "prod,team=x", 'prod",team="x']), ("team", ["x"]), ("9lives", ["cat"]), ("app", ["shop", "blog"]), ("container", ["impostor"]), ("é", ["accent"]),
                 ("msg", ["deploy-42"]), ("level", ["from-container"]), ("trace_id", ["t1"])]        # names the engine also derives from the record itself
         out = {}
         for k, vs in rng.sample(pool, rng.randint(0, 4)):
